@@ -70,6 +70,22 @@ NextArithDeep == \E cmb \in { c \in DefinedCombos : c[2] = c[3] \/ c[2] = "num" 
                    \E a \in Operand(cmb[2]), b \in Thin(cmb[3]) :
                      vec' = [ev |-> "arith", in |-> [op |-> cmb[1], a |-> a, b |-> b]]
 NextFnInfo == \E f \in Msgs : vec' = [ev |-> "fn_info", in |-> [f |-> f]]
+\* ---- growth: Display, constructors ---------------------------------------------------------------------
+FmtCs == {R(-1), R(1), R(2), R(-3), <<1,2>>, <<-5,4>>, <<3,8>>, R(0)}
+NoRepeat(f) == LET ts == RawTerms(f) IN \A i, j \in DOMAIN ts : i # j => Sort(ts[i].ids) # Sort(ts[j].ids)
+FmtFns == { [kind |-> "constant", c |-> c] : c \in FmtCs \ {Zero} } \cup { [kind |-> "none"] }
+          \cup { L(<< T(1, a), T(2, b) >>, c) : a \in FmtCs, b \in FmtCs, c \in {R(0), R(3), <<-1,2>>} }
+          \cup { [kind |-> "quadratic", rows |-> <<2, 1>>, columns |-> <<1, 1>>, values |-> <<a, b>>, linear |-> l] :
+                 a \in FmtCs, b \in {R(1), R(-1), R(0)}, l \in {<<>>, << L(<< T(3, R(-1)) >>, <<1,2>>) >>} }
+          \cup { [kind |-> "polynomial", terms |-> << [ids |-> <<2, 1, 1>>, c |-> a], [ids |-> <<3>>, c |-> b], [ids |-> <<1, 3>>, c |-> R(2)], [ids |-> <<>>, c |-> R(-1)] >>] :
+                 a \in FmtCs, b \in {R(1), R(-2)} }
+NextFmt == \E f \in FmtFns, via \in {"function", "typed"} : vec' = [ev |-> "fmt", in |-> [f |-> f, via |-> via]]
+NextCtor == \/ \E ts \in SeqsUpTo({ <<i, c>> : i \in {1, 2, 5}, c \in {R(1), R(-1), <<1,2>>, R(0)} }, 3), c \in {R(0), R(2)} :
+                 vec' = [ev |-> "ctor", in |-> [kind |-> "linear_new", terms |-> ts, constant |-> c, entries |-> <<>>]]
+            \/ \E es \in SeqsUpTo({ <<i, j, c>> : i \in {1, 2}, j \in {1, 2}, c \in {R(1), R(-1), <<1,2>>} }, 3) :
+                 vec' = [ev |-> "ctor", in |-> [kind |-> "quadratic_from_iter", terms |-> <<>>, constant |-> Zero, entries |-> es]]
+            \/ \E ts \in SeqsUpTo({ <<m, c>> : m \in { <<>>, <<1>>, <<2, 1>>, <<1, 2>>, <<2, 1, 2>> }, c \in {R(1), R(-1), <<1,2>>} }, 3) :
+                 vec' = [ev |-> "ctor", in |-> [kind |-> "polynomial_from_iter", terms |-> ts, constant |-> Zero, entries |-> <<>>]]
 \* ---- intervals ------------------------------------------------------------------------------
 E == {NInf, R(-3), R(-1), <<-1,2>>, Zero, <<1,2>>, One, R(2), PInf}
 Ivs == { b \in [lo : E, hi : E] : Valid(b) }
@@ -96,6 +112,8 @@ NextContent == \/ \E a \in NFracs, b \in NFracs, c \in {Zero, <<1,3>>, <<5,12>>}
                \/ \E f \in Msgs : vec' = [ev |-> "content_factor", in |-> [f |-> f]]
 Init == vec = <<>> /\ phase = 0
 Step(A) == phase = 0 /\ phase' = 1 /\ A
+DoFmt == Step(NextFmt)
+DoCtor == Step(NextCtor)
 DoEval == Step(NextEval)
 DoPartial == Step(NextPartial)
 DoSubst == Step(NextSubst)
